@@ -328,7 +328,7 @@ class Judge:
             "values", "values_skipped", "values_exact", "batch_sizes", "intervals", "interval_samples",
             "interval_samples_skipped", "interval_shared_with_plain", "nan_samples", "grads", "grads_skipped",
             "grads_ambiguous", "feats", "feats_ambiguous", "feats_skipped_budget", "feats_tie_sets_incomparable", "pushes", "pushed_values", "pushed_values_nan",
-            "pushed_interval_samples", "meshes", "mesh_tris_o", "mesh_tris_p", "plain_off_reference")}
+            "pushed_interval_samples", "meshes", "mesh_tris_o", "mesh_tris_p", "plain_off_reference", "revals", "revals_inherited_gradient")}
         self.sizes = set()
         self.width_ratios = []
         self.mesh_rows = []
@@ -361,6 +361,15 @@ class Judge:
                 n = int(w[1])
                 for k in range(n):
                     self.grad(case, w[2 + 17 * k: 19 + 17 * k], k, n)
+            elif w[0] == "reval":
+                n = int(w[1])
+                self.st["revals"] += n
+                self.st["revals_inherited_gradient"] += n if w[2] == "1" else 0
+                for k in range(n):
+                    o, p, rv, re = w[3 + 4 * k: 7 + 4 * k]
+                    self.st["values"] -= 1      # counted under revals
+                    self.value(case, "batch re-evaluated after a gradient query without set(), slot %d of %d: %s"
+                               % (k, n, " ".join(w[3 + 4 * k: 7 + 4 * k])), o, o, p, float(rv), float(re), [])
             elif w[0] == "feat":
                 self.feat(case, w)
             elif w[0] == "featskip":
